@@ -42,6 +42,16 @@ def gen(rng, count, tier):
                 calls.append({'kind': 'apply_batch', 'jobs': [{'id': i, 'args': [1000 * (j + 1) + 500 + i], 'cbs': [False, False]} for i in range(nb)],
                               'get_timeout': 30, 'no_join': True, 'after_lifespan': ls})
         sc = {'id': f'l{k}', 'pool': pool, 'calls': calls, 'budget': 60}
+        if k % 8 == 5:
+            # routine end-of-lifespan restarts under SHORT init / exit timeouts that are never exceeded: worker_init and
+            # worker_exit return at once, but one task is slow, so that a replacement instance sits idle for longer than the
+            # timeouts while the call is still running.  A retirement is not a failure: the call must complete.
+            n = rng.choice([3, 4, 6])
+            sc = {'id': f'l{k}', 'pool': {'n_jobs': 2, 'start_method': sms[k % len(sms)], 'keep_alive': False}, 'budget': 60,
+                  'behaviour': {'task': [{'at': 1001, 'do': 'sleep', 's': 2.6}]},
+                  'calls': [{'kind': rng.choice(['map', 'map_unordered', 'imap', 'imap_unordered']), 'n': n, 'input': 'list', 'elem': 'scalar',
+                             'base': 1000, 'init': True, 'exit': True,
+                             'params': {'chunk_size': 1, 'worker_lifespan': 1, 'worker_init_timeout': 1.0, 'worker_exit_timeout': 1.0}}]}
         if rng.random() < 0.3:
             # widen the window between the death watch's reads
             sc['plan'] = [{'method': 'is_worker_alive', 'action': 'sleep:0.003'}]
